@@ -254,7 +254,7 @@ def ensure_build() -> tuple[bool, str]:
     BUILD.mkdir(exist_ok=True)
     with open(BUILD / ".lock", "w") as lk:
         fcntl.flock(lk, fcntl.LOCK_EX)
-        rc, out = sh("timeout 3000 make -j16", cwd=COQ, timeout=3100)
+        rc, out = sh("timeout 3000 make -k -j16", cwd=COQ, timeout=3100)
     return rc == 0, out[-4000:]
 
 
@@ -514,7 +514,7 @@ def run_check(prop: Prop, tier: str, seed: int) -> int:
         proof_broken = {"what": "forbidden construct in development", "hits": gate[:20]}
 
     # 2. property theorems ------------------------------------------------------------
-    pr = compile_props(pid) if ok else {"theorems": [], "ok": False, "log": "build failed"}
+    pr = compile_props(pid)
     obligations = len(pr.get("declared", [])) or len(pr.get("theorems", []))
     discharged = len([t for t in pr.get("theorems", []) if set(t["assumptions"]) <= ALLOWED_AXIOMS]) if pr["ok"] else 0
     if not pr["ok"] and proof_broken is None:
@@ -549,9 +549,7 @@ def run_check(prop: Prop, tier: str, seed: int) -> int:
                 continue
             exprs.append(e)
             idx_map.append(i)
-        bad, errors = ([], []) if not ok else run_coq_bools(pid, prop.IMPORTS, exprs, prop.PRELUDE)
-        if not ok:
-            errors = ["development does not build: model cannot be evaluated"]
+        bad, errors = run_coq_bools(pid, prop.IMPORTS, exprs, prop.PRELUDE)
         bad_cases = [idx_map[b] for b in bad]
         if errors:
             corr_broken = {"what": "correspondence could not be evaluated", "errors": errors[:3]}
@@ -615,7 +613,7 @@ def run_check(prop: Prop, tier: str, seed: int) -> int:
             unknown.sort(key=lambda t: len(jdump(cases[t[0]])))
             i, f = unknown[0]
             shown = []
-            sh_e = prop.show(cases[i]) if ok else None
+            sh_e = prop.show(cases[i])
             if sh_e:
                 shown = coq_eval(pid, prop.IMPORTS, [sh_e], prop.PRELUDE)
             path = write_replay(
@@ -648,7 +646,7 @@ def run_check(prop: Prop, tier: str, seed: int) -> int:
                 sample = bad_cases[:5]
                 shown = []
                 exprs_s = [prop.show(cases[i]) for i in sample]
-                if ok and all(exprs_s):
+                if all(exprs_s):
                     shown = coq_eval(pid, prop.IMPORTS, exprs_s, prop.PRELUDE)
                 detail["differing_cases"] = [
                     {"case": cases[i], "implementation_observed": obs_list[i], "model_answer": (shown[k] if k < len(shown) else None)}
